@@ -78,6 +78,10 @@ struct StreamL {
     resp: i64,
     starved: bool,
     up_total: i64,
+    /// the endpoint sent an illegal frame on this stream (sozu owes RST_STREAM): it sends nothing more on it
+    muted: bool,
+    /// the DATA payload sozu relays on this stream comes from a harness peer (bytes 'd' / 'u'): anything else is foreign
+    check_body: bool,
 }
 
 #[derive(Clone, Debug)]
@@ -99,6 +103,9 @@ struct EpCfg {
     no_stall: bool,
     /// set by another endpoint of the scenario when waiting on is pointless
     abort: Option<Arc<AtomicBool>>,
+    /// see try_upload
+    split_hdr: usize,
+    split_ms: u64,
 }
 
 /// A paced peer lets sozu go idle (PING round trip) before it has sent this many frames in a row: Mux::ready
@@ -276,7 +283,7 @@ impl<S: Read + Write + SetTimeout> Ep<S> {
         let extra: Vec<(&str, &str)> = if up > 0 { vec![("content-length", cl.as_str())] } else { vec![] };
         let block = request_block(&mut self.c.hp, if up > 0 { "POST" } else { "GET" }, "https", "localhost", &path, &extra);
         self.st.insert(sid, StreamL { win: self.eff.init_win, rem: down, sst: Half::Wait, pst: if up == 0 { Half::Done } else { Half::Open },
-                                     up_left: up, adv: self.adv_init, owe: 0, blocked_at: None, progress: 0, resp: 0, starved: false, up_total: up });
+                                     up_left: up, adv: self.adv_init, owe: 0, blocked_at: None, progress: 0, resp: 0, starved: false, up_total: up, muted: false, check_body: false });
         self.slots.push(sid);
         self.log(json!({"ev": "PeerOpen", "sid": sid, "b": down, "u": up}));
         self.burst += 1;
@@ -300,12 +307,25 @@ impl<S: Read + Write + SetTimeout> Ep<S> {
 
     /// send as much body as sozu's advertised windows allow (a legal peer)
     fn try_upload(&mut self) -> bool {
+        // `split_hdr` = k > 0: frames go out in pairs, the first one together with the first k (< 9) bytes of the next
+        // one's header, the rest after a pause - sozu has then read a whole DATA frame (a WINDOW_UPDATE is due) while
+        // the next frame header is only partly received
+        let mut carry: Vec<u8> = Vec::new();
+        let any = self.try_upload_inner(&mut carry);
+        if !carry.is_empty() { self.c.send_raw(&carry); }
+        any
+    }
+
+    fn try_upload_inner(&mut self, carry: &mut Vec<u8>) -> bool {
         let mut any = false;
         let sids: Vec<u32> = self.st.keys().copied().collect();
         for sid in sids {
             loop {
                 let (left, adv, pst, sst, total) = { let s = &self.st[&sid]; (s.up_left, s.adv, s.pst, s.sst, s.up_total) };
-                if pst != Half::Open || sst == Half::Reset || self.dead { break; }
+                if pst != Half::Open || sst == Half::Reset || self.dead || self.st[&sid].muted { break; }
+                // backend role: a response begun early (op respond-early) is only continued by `hold`, and completed
+                // once the request is complete (a response that ends first makes sozu abandon the upload, legitimately)
+                if !self.sozu_is_server && sst != Half::Done { break; }
                 if !self.cfg.unpaced && self.burst >= PACE_FRAMES { return any; }
                 let pad = if self.cfg.pad > 0 && left > 1 { self.cfg.pad as i64 + 1 } else { 0 };
                 let room = adv.min(self.adv_conn).min(SOZU_MAX_FRAME as i64) - pad;
@@ -328,12 +348,103 @@ impl<S: Read + Write + SetTimeout> Ep<S> {
                 }
                 self.adv_conn -= wire;
                 self.owe_conn += wire;
-                self.c.send(&f);
+                let k = self.cfg.split_hdr.min(8);
+                if k == 0 {
+                    self.c.send(&f);
+                } else if carry.is_empty() {
+                    *carry = f.encode();
+                } else {
+                    let b = f.encode();
+                    carry.extend_from_slice(&b[..k]);
+                    self.c.send_raw(carry);
+                    carry.clear();
+                    std::thread::sleep(Duration::from_millis(self.cfg.split_ms));
+                    self.c.send_raw(&b[k..]);
+                }
                 any = true;
                 if es { break; }
             }
         }
         any
+    }
+
+    /// Body DATA inside sozu's advertised windows, at most `budget` bytes in frames of at most `frame` bytes, never
+    /// the last byte of a body (every frame is then credited with a stream WINDOW_UPDATE and the stream stays open).
+    fn upload_some(&mut self, mut budget: i64, frame: i64) -> i64 {
+        let mut sent = 0;
+        let sids: Vec<u32> = self.st.keys().copied().collect();
+        for sid in sids {
+            // one frame per stream and tick
+            if budget > 0 {
+                let (left, adv, pst, sst) = { let s = &self.st[&sid]; (s.up_left, s.adv, s.pst, s.sst) };
+                if pst != Half::Open || sst == Half::Reset || self.dead || self.st[&sid].muted { continue; }
+                let room = adv.min(self.adv_conn).min(SOZU_MAX_FRAME as i64);
+                let n = (left - 1).min(room).min(frame.max(1)).min(budget);
+                if n <= 0 { continue; }
+                self.log(json!({"ev": "PeerData", "sid": sid, "n": n, "body": n, "es": false}));
+                self.burst += 1;
+                {
+                    let s = self.st.get_mut(&sid).unwrap();
+                    s.up_left -= n;
+                    s.adv -= n;
+                    s.owe += n;
+                }
+                self.adv_conn -= n;
+                self.owe_conn += n;
+                if !self.c.send(&Frame::data(sid, vec![b'u'; n as usize], false)) { return sent; }
+                budget -= n;
+                sent += n;
+            }
+        }
+        sent
+    }
+
+    /// FULL-DUPLEX phase: for `ms` the endpoint does not read - once the kernel buffers are full sozu's write
+    /// towards it blocks in the middle of a frame - while it keeps SENDING on the same connection: `data` body
+    /// bytes every `every_ms` (at most `max` in all: they fit the socket buffers even if sozu read nothing, so
+    /// the endpoint's own blocking writes cannot wedge) and the control frames listed in `events`
+    /// ({"at_ms", "op": "ping" | "settings" | "wu", .., "stop_data": bool}).  Whatever sozu has to say in
+    /// answer (WINDOW_UPDATE, PING ACK, SETTINGS ACK, RST_STREAM) must wait for the end of the frame it is in.
+    fn hold(&mut self, op: &Value, raw_fd: i32) {
+        if let Some(n) = opt_i(op, "rcvbuf") { if raw_fd >= 0 { set_rcvbuf(raw_fd, n as i32); } }
+        let ms = opt_i(op, "ms").unwrap_or(500).max(1) as u64;
+        let every = opt_i(op, "every_ms").unwrap_or(40).max(1) as u64;
+        let data = opt_i(op, "data").unwrap_or(0);
+        let frame = opt_i(op, "frame").unwrap_or(16_384);
+        let mut budget = opt_i(op, "max").unwrap_or(32_768).min(65_536);
+        let mut events: Vec<Value> = op.get("events").and_then(|e| e.as_array()).cloned().unwrap_or_default();
+        events.sort_by_key(|e| opt_i(e, "at_ms").unwrap_or(0));
+        let t0 = Instant::now();
+        let mut next_tick = Duration::from_millis(opt_i(op, "first_ms").unwrap_or(every as i64).max(0) as u64);
+        let mut data_on = data > 0;
+        while t0.elapsed() < Duration::from_millis(ms) && !self.c.eof && self.c.io_error.is_none() {
+            let now = t0.elapsed();
+            while events.first().map(|e| Duration::from_millis(opt_i(e, "at_ms").unwrap_or(0).max(0) as u64) <= now).unwrap_or(false) {
+                let e = events.remove(0);
+                match e["op"].as_str().unwrap_or("") {
+                    "ping" => { self.burst += 1; self.c.send(&Frame::ping(*b"c14-hold", false)); }
+                    "settings" => self.send_settings(opt_i(&e, "initWin"), opt_i(&e, "maxFrame"), opt_i(&e, "maxStreams"), opt_i(&e, "tbl")),
+                    "wu" => {
+                        let slot = opt_i(&e, "slot").unwrap_or(0) as usize;
+                        let sid = if slot == 0 { Some(0) } else { self.slots.get(slot - 1).copied() };
+                        if let Some(sid) = sid {
+                            if sid == 0 || self.st.get(&sid).map(|s| matches!(s.sst, Half::Wait | Half::Open)).unwrap_or(false) {
+                                let n = opt_i(&e, "n").unwrap_or(1);
+                                self.send_wu(sid, n);
+                                if n == 0 && sid != 0 { if let Some(s) = self.st.get_mut(&sid) { s.muted = true; } }
+                            }
+                        }
+                    }
+                    _ => {}
+                }
+                if e.get("stop_data").and_then(|x| x.as_bool()).unwrap_or(false) { data_on = false; }
+            }
+            if data_on && now >= next_tick {
+                next_tick = now + Duration::from_millis(every);
+                if budget > 0 { budget -= self.upload_some(data.min(budget), frame); }
+            }
+            std::thread::sleep(Duration::from_millis(5));
+        }
     }
 
     // ---- what sozu sends ------------------------------------------------------------------------
@@ -376,10 +487,11 @@ impl<S: Read + Write + SetTimeout> Ep<S> {
         if new {
             let resp = path.rsplit('/').next().and_then(|p| p.strip_prefix('d')).and_then(|p| p.parse().ok()).unwrap_or(0);
             self.st.insert(sid, StreamL { win: self.eff.init_win, rem: b.max(0), sst: if es { Half::Done } else { Half::Open }, pst: Half::Idle,
-                                         up_left: 0, adv: self.adv_init, owe: 0, blocked_at: None, progress: 0, resp, starved: false, up_total: 0 });
+                                         up_left: 0, adv: self.adv_init, owe: 0, blocked_at: None, progress: 0, resp, starved: false, up_total: 0, muted: false, check_body: true });
             self.slots.push(sid);
         } else if let Some(s) = self.st.get_mut(&sid) {
             if s.sst == Half::Wait { s.sst = if es { Half::Done } else { Half::Open }; }
+            if status == 200 && self.sozu_is_server && complete { s.check_body = true; }
             if status != 200 && self.sozu_is_server { s.rem = 0; }
         }
         if status != 200 && self.sozu_is_server && complete {
@@ -453,6 +565,15 @@ impl<S: Read + Write + SetTimeout> Ep<S> {
             DATA => {
                 let n = f.payload.len() as i64;
                 let es = f.end_stream();
+                // every body in this harness is made of 'd' (mock origin) or 'u' (uploads, h2c backend answers): any other
+                // byte inside a relayed DATA payload was put there by sozu (e.g. a control frame written inside the frame)
+                if self.st.get(&f.sid).map(|s| s.check_body).unwrap_or(false) {
+                    if let Some(at) = f.data_bytes().and_then(|b| b.iter().position(|&x| x != b'd' && x != b'u')) {
+                        let b = f.data_bytes().unwrap_or(&[]);
+                        self.log(json!({"ev": "SozuForeign", "sid": f.sid, "at": at, "n": n,
+                                        "bytes": b[at..(at + 16).min(b.len())].iter().map(|x| format!("{x:02x}")).collect::<String>()}));
+                    }
+                }
                 self.log(json!({"ev": "SozuData", "sid": f.sid, "n": n, "es": es}));
                 self.conn_win -= n;
                 self.data_bytes += n;
@@ -703,6 +824,19 @@ fn run_ops<S: Read + Write + SetTimeout>(ep: &mut Ep<S>, ops: &[Value], prefix: 
                 std::thread::sleep(Duration::from_millis(opt_i(op, "ms").unwrap_or(50) as u64));
             }
             "ping" => { ep.burst += 1; ep.c.send(&Frame::ping(*b"c14-ping", false)); }
+            "hold" => ep.hold(op, raw_fd),
+            "respond-early" => {
+                // backend role: answer stream `slot` as soon as its HEADERS are in, without waiting for the request body
+                let slot = opt_i(op, "slot").unwrap_or(1).max(1) as usize;
+                while ep.slots.len() < slot && Instant::now() < overall && !ep.c.eof {
+                    ep.pump(Duration::from_millis(20));
+                    if let Some(s) = stop { if s.load(Ordering::SeqCst) { break; } }
+                }
+                if let Some(&sid) = ep.slots.get(slot - 1) {
+                    let (idle, u) = { let s = &ep.st[&sid]; (s.pst == Half::Idle && s.sst != Half::Reset, s.resp) };
+                    if idle && !ep.sozu_is_server { ep.respond(sid, opt_i(op, "u").unwrap_or(u)); }
+                }
+            }
             "reap-wait" => {
                 // grant nothing: the window-stall reaper is expected to cancel the blocked stream
                 let until = Instant::now() + ep.cfg.reap_after.unwrap_or(Duration::from_secs(1)) * 8 + Duration::from_secs(10);
@@ -888,10 +1022,20 @@ fn ep_cfg(sc: &Value, sh: &Shared, who: &str) -> EpCfg {
         unpaced: p.get("unpaced").and_then(|x| x.as_bool()).unwrap_or(false),
         no_stall: who == "driver",
         abort: None,
+        split_hdr: opt_i(p, "split_hdr").unwrap_or(0).clamp(0, 8) as usize,
+        split_ms: opt_i(p, "split_ms").unwrap_or(20).clamp(0, 1000) as u64,
     }
 }
 
 fn finish_run<S: Read + Write + SetTimeout>(ep: &mut Ep<S>, w: Wait, sh: &Shared, sc: &Value, who: &str, requests_ok: bool) {
+    finish_run_strict(ep, w, sh, sc, who, requests_ok, false)
+}
+
+/// `strict`: a backend connection that sozu closes with unfinished streams is RECORDED (SozuEof, judged by
+/// P_C14_NeverDropped / T_Conforms) even though the request side failed too.  Only for scenarios whose clients
+/// never give up by themselves (full-duplex schedules), and only when the caller saw neither the scenario's
+/// deadline pass nor another endpoint of the scenario abort: then nothing but sozu can have ended the connection.
+fn finish_run_strict<S: Read + Write + SetTimeout>(ep: &mut Ep<S>, w: Wait, sh: &Shared, sc: &Value, who: &str, requests_ok: bool, strict: bool) {
     let complete = ep.all_done() || ep.dead;
     let outcome = match w {
         Wait::Quiet => {
@@ -901,7 +1045,7 @@ fn finish_run<S: Read + Write + SetTimeout>(ep: &mut Ep<S>, w: Wait, sh: &Shared
         Wait::Garbled => "garbled",
         // sozu closed the connection: expected for a backend connection once its frontend session is gone
         Wait::Closed => {
-            if complete || ep.sozu_is_server || requests_ok { ep.log(json!({"ev": "SozuEof"})); "closed" } else { "inconclusive" }
+            if complete || ep.sozu_is_server || requests_ok || strict { ep.log(json!({"ev": "SozuEof"})); "closed" } else { "inconclusive" }
         }
         Wait::Inconclusive => "inconclusive",
     };
@@ -957,6 +1101,7 @@ fn scenario_back(sc: &Value, sh: &Shared, listener: TcpListener, prefix: String)
                     Ok((s, _)) => {
                         s.set_nonblocking(false).ok();
                         s.set_nodelay(true).ok();
+                        s.set_write_timeout(Some(Duration::from_secs(30))).ok();
                         if let Some(n) = opt_i(&sc["peer"], "rcvbuf") { set_rcvbuf(s.as_raw_fd(), n as i32); }
                         let (ops, stop, live, prefix, requests_ok, abort) = (ops.clone(), stop.clone(), live.clone(), prefix.clone(), requests_ok.clone(), abort.clone());
                         live.fetch_add(1, Ordering::SeqCst);
@@ -966,8 +1111,11 @@ fn scenario_back(sc: &Value, sh: &Shared, listener: TcpListener, prefix: String)
                             let w = if ep.c.read_client_preface(Duration::from_secs(20)) {
                                 run_ops(&mut ep, &ops, &prefix, overall, Some(&stop), fd)
                             } else { Wait::Inconclusive };
+                            // a connection closed under us: give the request side a moment to report its own verdict first
+                            if w == Wait::Closed { std::thread::sleep(Duration::from_millis(100)); }
+                            let strict = sc["strict_close"] == true && w == Wait::Closed && Instant::now() < overall && !abort.load(Ordering::SeqCst);
                             if matches!(w, Wait::Stall | Wait::Garbled | Wait::Inconclusive) { abort.store(true, Ordering::SeqCst); }
-                            finish_run(&mut ep, w, sh, sc, "peer", requests_ok.load(Ordering::SeqCst));
+                            finish_run_strict(&mut ep, w, sh, sc, "peer", requests_ok.load(Ordering::SeqCst), strict);
                             live.fetch_sub(1, Ordering::SeqCst);
                         }));
                     }
@@ -1011,6 +1159,8 @@ fn scenario_back(sc: &Value, sh: &Shared, listener: TcpListener, prefix: String)
                     dops.push(json!({"op": "finish", "mode": "eager"}));
                     let w = run_ops(&mut drv, &dops, &prefix, overall, None, fd);
                     if w != Wait::Quiet { notes.push(format!("driver: {:?}", w)); }
+                    // the client gives up by itself (overloaded machine, its own deadline): what the backend endpoints see next says nothing
+                    if matches!(w, Wait::Inconclusive | Wait::Stall) { abort.store(true, Ordering::SeqCst); }
                     finish_run(&mut drv, w, sh, sc, "driver", true);
                 }
                 Err(e) => notes.push(format!("driver tls: {e}")),
@@ -1180,6 +1330,95 @@ fn fixed_scenarios(mut id: u64, thorough: bool) -> Vec<Value> {
     v
 }
 
+/// FULL-DUPLEX schedules: sozu's write towards the checked endpoint is blocked in the middle of a DATA frame (the
+/// endpoint stops reading, bodies far larger than the socket buffers, windows wide open) while the endpoint keeps
+/// sending DATA - and PING / SETTINGS / an illegal WINDOW_UPDATE - on the same connection, so that sozu's read
+/// path queues WINDOW_UPDATE / PING ACK / SETTINGS ACK / RST_STREAM behind the half-written frame.  sozu's output
+/// must stay a sequence of whole frames (P_C14_WholeFrames; spec/H2Wire.tla says why).
+///   front: the endpoint is an H2 client: stream 1 downloads `big` bytes (not read during the hold), stream 2 uploads
+///   back : the endpoint is an h2c backend: it answers stream 1 early and stops reading the `big` upload
+fn duplex_scenario(id: u64, label: &str, back: bool, front: &str, big: i64, small: i64, max_frame: i64, rcvbuf: i64, hold: Value, await_bytes: i64) -> Value {
+    let mut ops: Vec<Value> = vec![json!({"op": "settings", "initWin": 1 << 30, "maxFrame": max_frame, "maxStreams": 100}), json!({"op": "wu", "slot": 0, "n": 1 << 30})];
+    let streams;
+    if back {
+        streams = json!([{"down": small, "up": big}]);
+        ops.push(json!({"op": "respond-early", "slot": 1}));
+        ops.push(json!({"op": "await", "bytes": await_bytes, "streams": 1}));
+    } else {
+        streams = json!([{"down": big, "up": 0}, {"down": 10, "up": small}]);
+        ops.push(json!({"op": "sync"}));
+        ops.push(json!({"op": "open", "down": big, "up": 0}));
+        ops.push(json!({"op": "await", "bytes": await_bytes}));
+        ops.push(json!({"op": "open", "down": 10, "up": small}));
+    }
+    let mut h = hold;
+    h["op"] = json!("hold");
+    h["rcvbuf"] = json!(rcvbuf);
+    ops.push(h);
+    ops.push(json!({"op": "finish", "mode": "eager"}));
+    json!({"id": id, "kind": if back { "back" } else { "front" }, "front": front, "listener": if back && front == "h1" { "h1" } else { "tls" }, "label": label, "streams": streams,
+           "strict_close": true,
+           "peer": {"ops": ops, "pad": 0, "rcvbuf": rcvbuf, "up_chunk": 16_384}, "driver": {"up_chunk": 16_384}, "deadline_ms": 120_000})
+}
+
+fn duplex_scenarios(mut id: u64, r: &mut StdRng, nrandom: usize) -> Vec<Value> {
+    let mut v = Vec::new();
+    let mut add = |label: &str, back: bool, front: &str, hold: Value, v: &mut Vec<Value>| {
+        id += 1;
+        v.push(duplex_scenario(id, label, back, front, 6_000_000, 48_000, 16_384, 131_072, hold, 100_000));
+    };
+    // DATA from the endpoint while sozu is blocked: WINDOW_UPDATEs become due inside the half-written frame
+    add("fixed:front:duplex-data", false, "h2", json!({"ms": 600, "every_ms": 40, "data": 3_000, "max": 40_000}), &mut v);
+    add("fixed:back:duplex-data-h1", true, "h1", json!({"ms": 600, "every_ms": 40, "data": 3_000, "max": 40_000}), &mut v);
+    add("fixed:back:duplex-data-h2", true, "h2", json!({"ms": 600, "every_ms": 40, "data": 2_000, "max": 30_000}), &mut v);
+    // ... then PING and SETTINGS (their answers wait in the zero buffer, reads stop until it is flushed)
+    add("fixed:front:duplex-data-ping-settings", false, "h2", json!({"ms": 700, "every_ms": 30, "data": 2_000, "max": 30_000,
+        "events": [{"at_ms": 450, "op": "ping"}, {"at_ms": 520, "op": "settings", "maxFrame": 32_768}]}), &mut v);
+    add("fixed:back:duplex-data-ping-settings", true, "h1", json!({"ms": 700, "every_ms": 30, "data": 2_000, "max": 30_000,
+        "events": [{"at_ms": 450, "op": "ping"}, {"at_ms": 520, "op": "settings", "initWin": 1 << 20}]}), &mut v);
+    // ... PING first: the deferred answer parks the reads, the DATA behind it is read after the frame boundary
+    add("fixed:front:duplex-ping-data", false, "h2", json!({"ms": 600, "every_ms": 40, "first_ms": 380, "data": 3_000, "max": 20_000,
+        "events": [{"at_ms": 350, "op": "ping"}]}), &mut v);
+    // ... an illegal WINDOW_UPDATE (increment 0) on the uploading stream: sozu owes RST_STREAM, on a frame boundary
+    add("fixed:front:duplex-data-rst", false, "h2", json!({"ms": 650, "every_ms": 40, "data": 3_000, "max": 24_000,
+        "events": [{"at_ms": 420, "op": "wu", "slot": 2, "n": 0, "stop_data": true}]}), &mut v);
+    // frames of an upload split inside the next frame header (any TCP segment boundary can fall there)
+    for (label, kind, k) in [("fixed:front:split-header-upload", "front", 4i64), ("fixed:back:split-header-response", "back", 5)] {
+        id += 1;
+        let back = kind == "back";
+        let (ops, streams) = if back {
+            (json!([{"op": "settings", "maxStreams": 100}, {"op": "finish", "mode": "eager"}]), json!([{"down": 200_000, "up": 10}]))
+        } else {
+            (json!([{"op": "settings"}, {"op": "sync"}, {"op": "open", "down": 10, "up": 200_000}, {"op": "finish", "mode": "eager"}]), json!([{"down": 10, "up": 200_000}]))
+        };
+        v.push(json!({"id": id, "kind": kind, "front": "h1", "listener": if back { "h1" } else { "tls" }, "label": label, "streams": streams, "strict_close": true,
+                      "peer": {"ops": ops, "pad": 0, "up_chunk": 16_384, "split_hdr": k, "split_ms": 15}, "driver": {"up_chunk": 16_384}, "deadline_ms": 120_000}));
+    }
+    for i in 0..nrandom {
+        id += 1;
+        let back = r.random_range(0..2) == 0;
+        let front = if back && r.random_range(0..2) == 0 { "h1" } else { "h2" };
+        let big = pick(r, &[5_000_000i64, 6_000_000, 8_000_000]);
+        let small = pick(r, &[20_000i64, 48_000, 70_000]);
+        let max_frame = pick(r, &[16_384i64, 16_384, 20_000, 65_536]);
+        let rcvbuf = pick(r, &[65_536i64, 131_072, 131_072]);
+        let ms = pick(r, &[450i64, 600, 800]);
+        let data = pick(r, &[1i64, 100, 1_000, 3_000, 16_384]);
+        let mut events: Vec<Value> = Vec::new();
+        match r.random_range(0..5) {
+            0 => events.push(json!({"at_ms": ms - 150, "op": "ping"})),
+            1 => events.push(json!({"at_ms": ms - 120, "op": "settings", "initWin": pick(r, &[1i64 << 20, 1 << 30]), "maxFrame": pick(r, &[16_384i64, 32_768])})),
+            2 => { events.push(json!({"at_ms": ms - 200, "op": "ping"})); events.push(json!({"at_ms": ms - 100, "op": "settings", "maxFrame": 16_384})); }
+            _ => {}
+        }
+        let hold = json!({"ms": ms, "every_ms": pick(r, &[20i64, 40, 70]), "data": data, "max": pick(r, &[8_000i64, 30_000, 48_000]).min(small - 1), "events": events});
+        let label = format!("rand:duplex:{}:{}:big{}:f{}:rb{}:h{}:d{}:e{}", if back { "back" } else { "front" }, front, big, max_frame, rcvbuf, ms, data, hold["events"].as_array().map(|a| a.len()).unwrap_or(0));
+        v.push(duplex_scenario(id, &label, back, front, big, small, max_frame, rcvbuf, hold, pick(r, &[50_000i64, 100_000, 300_000])));
+        let _ = i;
+    }
+    v
+}
+
 /// debugging aid: same as vh::worker::Worker::start, with sozu's logger (thread-local) started on the worker thread
 fn start_worker_logging(name: &str, config: sozu_command_lib::proto::command::ServerConfig, level: String) -> Worker {
     use std::os::unix::prelude::IntoRawFd;
@@ -1206,6 +1445,29 @@ fn start_worker_logging(name: &str, config: sozu_command_lib::proto::command::Se
 }
 
 static PANICS: Mutex<Vec<String>> = Mutex::new(Vec::new());
+/// mux_ready_exit snapshots (hook) that show an HTTP/2 connection parked with a stream frame half-written
+/// (`ew` = a stream) AND control output waiting for the frame boundary: WINDOW_UPDATEs queued / an answer
+/// deferred into the zero buffer with the reads parked.  Coverage evidence only: how often the full-duplex
+/// schedules realised the situation they are meant for.
+static HALF_FRAME_WU: AtomicU64 = AtomicU64::new(0);
+static HALF_FRAME_ZERO: AtomicU64 = AtomicU64::new(0);
+
+fn install_half_frame_counter() {
+    sozu_lib::verif::install(Box::new(|e| {
+        if e.kind != "mux_ready_exit" { return; }
+        for (k, v) in &e.strs {
+            if *k != "front" && *k != "backs" { continue; }
+            for ep in v.split(';') {
+                if !ep.contains("proto=h2") { continue; }
+                let num = |key: &str| -> i64 { ep.split(' ').find_map(|p| p.strip_prefix(key).and_then(|r| r.strip_prefix('='))).and_then(|x| x.parse().ok()).unwrap_or(-9) };
+                if num("ew") >= 0 {
+                    if num("wu") > 0 { HALF_FRAME_WU.fetch_add(1, Ordering::Relaxed); }
+                    if num("zero") > 0 && num("int") & 1 == 0 { HALF_FRAME_ZERO.fetch_add(1, Ordering::Relaxed); }
+                }
+            }
+        }
+    }));
+}
 
 fn main() {
     // panics (of the worker thread: data; of the harness: tool error) are recorded with their location
@@ -1235,12 +1497,21 @@ fn main() {
     if fixed { scenarios.extend(fixed_scenarios(10_000, thorough)); }
     let mut rng = StdRng::seed_from_u64(seed ^ 0xC14);
     for i in 0..nrandom { scenarios.push(random_scenario(&mut rng, 20_000 + i as u64, thorough)); }
+    if let Some(n) = arg("--duplex").and_then(|s| s.parse::<usize>().ok()) {
+        let mut drng = StdRng::seed_from_u64(seed ^ 0xD0_C14);
+        // first in the queue: they are the long ones
+        let mut d = duplex_scenarios(40_000, &mut drng, n);
+        d.append(&mut scenarios);
+        scenarios = d;
+    }
+    if let Some(only) = arg("--only") { scenarios.retain(|s| s["label"].as_str().map(|l| l.contains(&only)).unwrap_or(false)); }
     if args.iter().any(|a| a == "--print") {
         for s in &scenarios { println!("{}", s); }
         return;
     }
 
     // ---- the worker
+    install_half_frame_counter();
     let t = Duration::from_secs(30);
     let cfg = server_config(|fc| { fc.buffer_size = Some(buffer_size); fc.min_buffers = Some(4); fc.max_buffers = Some(2000); });
     let mut w = match arg("--sozu-log") {
@@ -1328,6 +1599,7 @@ fn main() {
     vh::util::emit(&json!({"kind": "summary", "scenarios": scenarios.len(), "runs": results.iter().filter(|r| r["kind"] == "run").count(),
         "done": count("done"), "stall": count("stall"), "closed": count("closed"), "inconclusive": count("inconclusive"),
         "garbled": count("garbled"),
+        "half_frame_wu_pending": HALF_FRAME_WU.load(Ordering::Relaxed), "half_frame_zero_deferred": HALF_FRAME_ZERO.load(Ordering::Relaxed),
         "worker_panic": worker_panic, "panics": PANICS.lock().map(|p| p.clone()).unwrap_or_default(), "wall_s": t0.elapsed().as_secs_f64(),
         "data_bytes": results.iter().map(|r| r["data_bytes"].as_i64().unwrap_or(0)).sum::<i64>()}));
     std::process::exit(0);
